@@ -236,7 +236,7 @@ struct Periodic {
 }
 
 #[derive(Debug, Clone, PartialEq, Eq, Serialize, Deserialize)]
-struct Scenario {
+pub struct Scenario {
     seed: u32,
     sched: Option<u64>,
     big: u8,
@@ -356,7 +356,7 @@ fn sub_spec_w(faults: bool, bursty: bool) -> impl Strategy<Value = SubSpec> {
         })
 }
 
-fn scenario(faults: bool, max_subs: usize) -> impl Strategy<Value = Scenario> {
+pub fn scenario(faults: bool, max_subs: usize) -> impl Strategy<Value = Scenario> {
     scenario_w(faults, max_subs, false)
 }
 
@@ -407,11 +407,11 @@ struct SubObs {
 
 /// One decoded datagram of the tap.
 #[derive(Debug, Clone)]
-struct Dg {
-    t_us: u64,
-    pair: u16,
-    from_dev: bool,
-    w: Wire,
+pub struct Dg {
+    pub t_us: u64,
+    pub pair: u16,
+    pub from_dev: bool,
+    pub w: Wire,
 }
 
 struct Shared {
@@ -452,7 +452,7 @@ struct AdvState {
     delays: usize,
 }
 
-struct Obs {
+pub struct Obs {
     t0: u64,
     t_heal: u64,
     t_end: u64,
@@ -466,7 +466,7 @@ struct Obs {
     /// subscription ids in the device table at T_quiet
     alive: BTreeSet<u32>,
     final_values: BTreeMap<APath, Vec<u8>>,
-    sent: Vec<Dg>,
+    pub sent: Vec<Dg>,
     consumed_by_dev: Vec<Dg>,
     session_lost: Vec<bool>,
     adv: (usize, usize, usize),
@@ -568,7 +568,7 @@ fn at(t0: u64, ms: u64) -> Instant {
     Instant::from_micros(t0 + ms * MS)
 }
 
-fn run_scenario(sc: &Scenario) -> Result<Obs, Case> {
+pub fn run_scenario(sc: &Scenario) -> Result<Obs, Case> {
     vh::sim::reset_universe();
     let spec = node_spec(sc.big);
     let node = SynthNode::new(&spec);
